@@ -25,6 +25,9 @@ CONFIGS = {
     # capacity-reduced: only the LM-OTS chain capacity shrinks (265 -> 34); levels and heights stay at the default limits.
     # Used for functions whose text does not depend on MAX_NUM_WINTERNITZ_CHAINS-sized buffers (counter arithmetic, control flow).
     "w8": {"env": {"HBS_LMS_WINTERNITZ_PARAMETERS": "8, 8, 8, 8, 8, 8, 8, 8"}, "features": ["hbs_lms_verif"]},
+    # two levels, W8 only: the smallest structures on which the signing control flow can be exercised with lists of 1 and 2 levels
+    "L2w8": {"env": {"HBS_LMS_MAX_ALLOWED_HSS_LEVELS": "2", "HBS_LMS_TREE_HEIGHTS": "25, 25",
+                     "HBS_LMS_WINTERNITZ_PARAMETERS": "8, 8"}, "features": ["hbs_lms_verif"]},
     "fastverify": {"env": {"HBS_LMS_MAX_HASH_OPTIMIZATIONS": "4", "HBS_LMS_THREADS": "1"},
                    "features": ["hbs_lms_verif", "fast_verify"]},
     "L1": {"env": {"HBS_LMS_MAX_ALLOWED_HSS_LEVELS": "1", "HBS_LMS_TREE_HEIGHTS": "25",
